@@ -302,6 +302,45 @@ def culling(P, rep, rule="DEP.culling"):
                                   "a length is compared with angles without the radius", key="%s|%s|bbox-radius" % (rule, cls), witness="spherical world with another radius")
                 else:
                     rep.ok(rule, "%s: bounding box depends on coordinates, segment lengths/thicknesses and the radius" % keyfield, F.nloc(c), F.qn)
+        # Cartesian buffer: every assignment to buffer_around_*_cartesian is at least L + T (a slab that goes down and then flattens,
+        # or an overturned one, reaches that far from its trench) - decided on the extracted expression at sample values
+        PF0 = P.func(cls + "::parse_entries")
+        L0, T0 = sp.symbols("L T", nonnegative=True)
+
+        def hk0(nd):
+            if nd.get("k") == "MemberExpr" and astq.is_this_field(P, nd):
+                nm = nd.get("n", "")
+                if "total" in nm and "length" in nm:
+                    return L0
+                if "thickness" in nm:
+                    return T0
+            return None
+        for asg in PF0.walk():
+            if asg.get("k") == "BinaryOperator" and asg.get("op") == "=" and sc(asg["c"][0]).get("k") == "MemberExpr" \
+                    and re.match(r"buffer_around_\w+_cartesian$", sc(asg["c"][0]).get("n", "")):
+                n += 1
+                try:
+                    val = norm.Sym(P, PF0, inline_locals=True, hook=hk0)(asg["c"][1])
+                except Exception:
+                    val = None
+                if val is None or (val.free_symbols - {L0, T0}):
+                    rep.unknown(rule, "%s: Cartesian buffer `%s` is not an expression of the maximal length and thickness" % (keyfield, norm.render(P, asg["c"][1])[:60]))
+                    continue
+                short = None
+                for lv, tv in ((3, 4), (4e5, 1e5), (1, 0), (0, 1), (1e5, 2e5)):
+                    try:
+                        got = float(val.subs({L0: lv, T0: tv}))
+                    except Exception:
+                        got = float("inf")
+                    if got < (lv + tv) * (1 - 1e-12):
+                        short = (lv, tv, got)
+                        break
+                if short:
+                    rep.violation(rule, "%s: Cartesian buffer `%s` is %g for (L, T) = (%g, %g), less than L + T" % (keyfield, norm.render(P, asg["c"][1])[:60], short[2], short[0], short[1]),
+                                  PF0.nloc(asg), PF0.qn, norm.render(P, asg)[:140], "points of the feature farther from the trench than the buffer are culled by the bounding box",
+                                  key="%s|%s|buffer-cartesian" % (rule, cls), witness="a short, thick, overturned slab under an axis-parallel trench")
+                else:
+                    rep.ok(rule, "%s: Cartesian buffer `%s` >= L + T" % (keyfield, norm.render(P, asg["c"][1])[:50]), PF0.nloc(asg), PF0.qn)
         # spherical buffer: an angle that must exceed (L+T)/R_surface, the angle the same arc subtends AT the surface --
         # the slab lies below the surface, where it subtends a strictly larger angle
         PF = P.func(cls + "::parse_entries")
